@@ -12,3 +12,11 @@ P.trusted += R.P.trusted
 for t in R.P.tasks:
     if t.name == "writer.spec":
         P.tasks.append(Task(P, "copy_serialiser." + t.name, t.fn, t.func, files=t.files or R.P.files, timeout=t.timeout, order=t.order, z3_ms=t.z3_ms, polyid_s=t.polyid_s))
+
+
+# a copy evolves like its source only if no state outside struct reb_simulation influences a step: the whole-library contract
+# "no written process-global (or function-static) object except reb_sigint" of C19 is re-registered here
+from contracts import C19_frames as F19
+for t in F19.P.tasks:
+    if t.name in ("sources", "globals"):
+        P.tasks.append(Task(P, "no_hidden_shared_state." + t.name, t.fn, t.func, files=t.files or F19.P.files, timeout=t.timeout))
